@@ -203,6 +203,9 @@ def summary(fn, norm, calls_pred=None, ctx=None):
                 flds = [e["f"] for e in st["p"]["p"] if isinstance(e, dict) and "f" in e]
                 if flds:
                     out["stores"].add("%s := %s" % (".".join(norm.field_map.get(f, f) for f in flds), norm.s(pv._rvalue(st["rv"], bi, si, 0))))
+                elif st["p"]["p"] == ["*"] and fn.locals[st["p"]["l"]].get("n"):
+                    # store through a named reference binding (`*tick_group_index = ..` on a `ref mut` pattern)
+                    out["stores"].add("*%s := %s" % (norm.s(pv.place(st["p"], bi, si)), norm.s(pv._rvalue(st["rv"], bi, si, 0))))
     return out
 
 
